@@ -179,6 +179,120 @@ def inst_label_refs(t):
     return out
 
 
+def reference_of(lines, cat):
+    """Recompute, from the builder command lines alone, the direct sequence ("the edited sequence") with the plain list oracle.
+    Returns (reference lines, ok): ok is False when an edit command addresses a node that does not exist (an invalid program).
+    Used by the shrinker and as a cross-check of the generator's incremental bookkeeping."""
+    lo = ListOracle()
+    nlabels = 0
+    ok = True
+    for idx, line in enumerate(lines):
+        t = line.split()
+        k = t[0]
+        n = len(lo.act)
+        if k == "NL":
+            nlabels += 1
+        elif k == "NS":
+            pass
+        elif k == "SO":
+            lo.pend["opts"] = int(t[1])
+        elif k == "AO":
+            lo.pend["opts"] |= int(t[1])
+        elif k == "SX":
+            lo.pend["extra"] = (int(t[1]), int(t[2]))
+        elif k == "SC":
+            lo.pend["comment"] = None if t[1] == "-" else (b"" if t[1] == "=" else bytes.fromhex(t[1]))
+        elif k == "I":
+            po = lo.pend
+            ref = []
+            if po["opts"]:
+                ref.append("SO %d" % po["opts"])
+            if po["extra"] is not None:
+                ref.append("SX %d %d" % po["extra"])
+            if po["comment"] is not None:
+                ref.append("SC %s" % hexs(po["comment"]))
+            ref.append(line)
+            lo.pend = {"opts": 0, "extra": None, "comment": None}
+            lo.insert({"kind": "I", "origin": idx, "ref": ref})
+        elif k == "B":
+            l = int(t[1])
+            if l >= nlabels:
+                lo.insert({"kind": "bind_invalid", "origin": idx, "ref": [line]})
+            else:
+                nd = lo.label_node(l, idx)
+                if lo.index(nd) is None:
+                    nd["origin"] = idx
+                    lo.insert(nd)
+        elif k == "CP":
+            l, item, data = int(t[1]), int(t[2]), t[4]
+            if l >= nlabels:
+                lo.insert({"kind": "CPbad", "origin": idx, "ref": [line]})
+            else:
+                nd = lo.label_node(l, idx)
+                if lo.index(nd) is not None:
+                    lo.insert({"kind": "A", "origin": -1, "ref": ["A %d %d" % (cat.align["data"], item)], "partial": True})
+                else:
+                    lo.insert({"kind": "A", "origin": idx, "ref": ["A %d %d" % (cat.align["data"], item)]})
+                    nd["origin"] = idx
+                    lo.insert(nd)
+                    lo.insert({"kind": "D", "origin": idx, "ref": ["E %s" % data]})
+        elif k == "CPN":
+            l = nlabels
+            nlabels += 1
+            nd = {"kind": "CPN", "origin": idx, "ref": ["CP %d %s %s %s" % (l, t[1], t[2], t[3])], "label": l}
+            lo.label_nodes[l] = nd
+            lo.insert(nd)
+        elif k in ("A", "E", "EA", "EL", "ED", "CM"):
+            lo.insert({"kind": k, "origin": idx, "ref": [line]})
+        elif k == "SN":
+            lo.insert({"kind": "SN", "origin": idx, "ref": []})          # a sentinel node stands for no call at all
+        elif k == "S":
+            lo.section(int(t[1]), idx)
+        elif k == "SCUR":
+            i = int(t[1])
+            if i >= n:
+                ok = False
+            else:
+                lo.set_cursor(i)
+        elif k == "RM":
+            i = int(t[1])
+            if i >= n or n <= 1:
+                ok = False
+            else:
+                lo.remove(i)
+        elif k == "RMR":
+            i, j = int(t[1]), int(t[2])
+            if not (i <= j < n) or j - i + 1 >= n:
+                ok = False
+            else:
+                lo.remove_range(i, j)
+        elif k == "RMP":
+            if int(t[1]) >= len(lo.pool):
+                ok = False
+        elif k in ("AA", "AB"):
+            kk, i = int(t[1]), int(t[2])
+            if kk >= len(lo.pool) or i >= n:
+                ok = False
+            elif k == "AA":
+                lo.add_after(kk, i)
+            else:
+                lo.add_before(kk, i)
+        elif k == "AN":
+            if int(t[1]) >= len(lo.pool):
+                ok = False
+            else:
+                lo.add_node(int(t[1]))
+        elif k == "USL":
+            pass
+        if not ok:
+            break
+    return lo.reference(), ok
+
+
+def program_text(pidx, arch, base1, base2, flags, lines, ref):
+    return "\n".join(["P %d %d %d %d %d" % (pidx, arch, base1, base2, flags)] + lines + ["X"] + ref + ["END"]) + "\n"
+
+
 # ------------------------------------------------------------------------------------------------ program generator
 class ProgGen:
     def __init__(self, rng, cat, arch, kind, pidx, size=None, allow_xsec=False):
@@ -499,8 +613,12 @@ class ProgGen:
                 self.gen_constpool(r.choice(c))
         elif x < 0.94:
             self.simple("CM %s" % hexs(self.rnd_comment()), "comment")
-        elif x < 0.944:
+        elif x < 0.946:
             self.gen_constpool_node()
+        elif x < 0.95:
+            idx = self.emit("SN %d" % r.choice([0, 1]))
+            self.lo.insert({"kind": "SN", "origin": idx, "ref": []})
+            self.count("sentinel_node")
         elif x < 0.99:
             if self.nsections > 1:
                 self.gen_section()
@@ -624,7 +742,68 @@ class ProgGen:
         ref = self.lo.reference()
         return ref
 
+    def generate_func(self):
+        """Compiler-only program: functions (add_func / ret / end_func) whose bodies use physical registers only and no label references
+        (the register allocator removes code it proves unreachable, which a plain Assembler would keep)."""
+        r = self.rng
+
+        def body_step():
+            x = r.random()
+            if x < 0.7:
+                # no label references and no real return / indirect branch: the register allocator ends the block there and drops what follows
+                forms = [f for f in self.cat.forms[self.arch] if not (f["deco"] & D_LABELREF) and f["name"] not in ("ret", "br", "jmp_r")]
+                saved = self.cat.forms[self.arch]
+                self.cat.forms[self.arch] = forms
+                try:
+                    self.gen_inst()
+                finally:
+                    self.cat.forms[self.arch] = saved
+            elif x < 0.78:
+                self.gen_data()
+            elif x < 0.84:
+                self.simple("A %d %d" % (r.choice([0, 1, 2]), r.choice([4, 8, 16])), "align")
+            elif x < 0.90:
+                self.simple("CM %s" % hexs(self.rnd_comment() or b"x"), "comment")
+            elif x < 0.95 and self.nlabels:
+                self.simple("EL %d %d" % (r.randrange(self.nlabels), 0), "embed_label")
+            else:
+                c = self.unbound_here()
+                if c:
+                    self.gen_bind(r.choice(c))
+        for _ in range(r.randrange(1, 4)):
+            self.new_label(home=0)
+        for _ in range(r.randrange(0, 4)):
+            body_step()
+        for _ in range(r.randrange(1, 3)):
+            if r.random() < 0.4:                   # one-shot state in front of add_func: the comment goes to the FuncNode, the rest is dropped
+                self.emit("SC %s" % hexs(self.rnd_comment()))
+                if r.random() < 0.5:
+                    self.emit("SO %d" % self.cat.opt["Lock"])
+            self.emit("FN")
+            self.nlabels += 2                      # exit label, then the function's own label
+            self.home[self.nlabels - 2] = 0
+            self.home[self.nlabels - 1] = 0
+            self.bound.update((self.nlabels - 2, self.nlabels - 1))
+            self.count("func")
+            for _ in range(r.randrange(1, 12)):
+                body_step()
+            if r.random() < 0.7:
+                if r.random() < 0.4:
+                    self.emit("SC %s" % hexs(self.rnd_comment()))
+                    if r.random() < 0.5 and self.arch != 2:
+                        self.emit("SX %d %d" % self.cat.xr[(self.arch, "k")][0])
+                self.emit("FR")
+                self.count("func_ret")
+            self.emit("FE")
+            for _ in range(r.randrange(0, 3)):
+                body_step()
+        return []
+
     def text(self, base1, base2):
+        if self.kind == "func":
+            self.generate_func()
+            head = "P %d %d %d %d %d" % (self.pidx, self.arch, base1, base2, 3)
+            return "\n".join([head] + self.lines + ["X", "END"]) + "\n", []
         ref = self.generate()
         flags = 1 if self.kind != "edit" else 0
         head = "P %d %d %d %d %d" % (self.pidx, self.arch, base1, base2, flags)
@@ -644,5 +823,17 @@ def make_program(rng, cat, pidx, arch, kind, allow_xsec=False):
             continue
         if g.double_bound and kind != "malformed":
             continue
-        return text, {"pidx": pidx, "arch": arch, "kind": kind, "stats": g.stats, "double_bind": g.double_bound, "double_bind_at": g.double_bind_at, "ncmds": len(g.lines), "lines": g.lines, "ref": ref}
+        if kind == "func":
+            return text, {"pidx": pidx, "arch": arch, "kind": kind, "stats": g.stats, "double_bind": False, "double_bind_at": None,
+                          "ncmds": len(g.lines), "lines": g.lines, "ref": [], "base": (base1, base2), "flags": 3}
+        ref2, ok2 = reference_of(g.lines, cat)
+        if not ok2 or ref2 != ref:
+            raise RuntimeError("generator bookkeeping and reference_of disagree on program %d" % pidx)
+        validate = kind in ("pure", "malformed") and rng.random() < 0.25
+        if validate:
+            head, _, rest = text.partition("\n")
+            text = head[:-1] + str(int(head[-1]) | 4) + "\n" + rest
+        return text, {"pidx": pidx, "arch": arch, "kind": kind, "stats": g.stats, "double_bind": g.double_bound, "double_bind_at": g.double_bind_at,
+                      "ncmds": len(g.lines), "lines": g.lines, "ref": ref, "base": (base1, base2), "flags": (1 if kind != "edit" else 0) | (4 if validate else 0),
+                      "validate": validate}
     raise RuntimeError("generator could not produce a program free of the 7.14 shape")
